@@ -324,6 +324,10 @@ func (x *Exec) localByName(st *State, fr *Frame, name string) (Val, bool) {
 		}
 	}
 	if len(cands) == 0 {
+		// the name may have been renamed in the code since the contracts were accepted
+		cands = x.w.lockedAllocs(fr.fn, want)
+	}
+	if len(cands) == 0 {
 		return Val{}, false
 	}
 	if ord > 0 {
@@ -361,9 +365,22 @@ func (x *Exec) localAddrByName(st *State, fr *Frame, name string) (string, types
 			fr = f
 		}
 	}
+	found := false
 	for _, b := range fr.fn.Blocks {
 		for _, in := range b.Instrs {
-			if a, ok := in.(*ssa.Alloc); ok && a.Comment == name && !x.isLocalMode(a) {
+			if a, ok := in.(*ssa.Alloc); ok && a.Comment == name {
+				found = true
+				if !x.isLocalMode(a) {
+					if v, have := fr.vals[a]; have {
+						return v.S, a.Type().Underlying().(*types.Pointer).Elem(), true
+					}
+				}
+			}
+		}
+	}
+	if !found {
+		for _, a := range x.w.lockedAllocs(fr.fn, name) {
+			if !x.isLocalMode(a) {
 				if v, have := fr.vals[a]; have {
 					return v.S, a.Type().Underlying().(*types.Pointer).Elem(), true
 				}
